@@ -95,7 +95,7 @@ def run(ctx):
         phsp_kind = ["positive", "ones", "mixed_mild"][i % 3]
         phsp = lik.make_sample(cfg, card, nmc, rng, phsp_kind, cfit=cfit)
         bg = None
-        rot = i + i // len(MODEL_NAMES)  # de-aliased case counter: conditions on it rotate over the models from round to round
+        rot = i % len(MODEL_NAMES) + i // len(MODEL_NAMES)  # model index + round: conditions on it rotate over the models from round to round, whatever the number of models
         if not cfit and rot % 4 != 3:
             bg = lik.make_sample(cfg, card, 23, rng, "ones")
             if rot % 5 == 1:
